@@ -16,14 +16,14 @@ import (
 
 // Schedule is a replayable history: a world configuration, the probes to evaluate, and events.
 type Schedule struct {
-	Name   string    `json:"name"`
-	Family string    `json:"family"`
-	Cfg    WorldCfg  `json:"cfg"`
-	Events []Event   `json:"events"`
-	Probes []string  `json:"probes"` // "liveness","claimAll","queries","redeleg","supply"
-	Every  int       `json:"every"`  // probe every n-th step (0/1 = every step)
-	Det    int       `json:"det"`    // replay every step this many times on sibling branches (C19)
-	Note   string    `json:"note,omitempty"`
+	Name   string   `json:"name"`
+	Family string   `json:"family"`
+	Cfg    WorldCfg `json:"cfg"`
+	Events []Event  `json:"events"`
+	Probes []string `json:"probes"` // "liveness","claimAll","queries","redeleg","supply"
+	Every  int      `json:"every"`  // probe every n-th step (0/1 = every step)
+	Det    int      `json:"det"`    // replay every step this many times on sibling branches (C19)
+	Note   string   `json:"note,omitempty"`
 }
 
 func probeCfg(names []string, big string) ProbeCfg {
@@ -544,7 +544,9 @@ func (g *Gen) next() Event {
 			g.queue = append(g.queue, Event{Ev: "EndBlock"})
 			return Event{Ev: "StakingEndBlock"}
 		}},
-		{16, func() Event { return Event{Ev: "Delegate", D: g.dname(), V: g.allianceVal(), A: g.aname(), X: g.amount()} }},
+		{16, func() Event {
+			return Event{Ev: "Delegate", D: g.dname(), V: g.allianceVal(), A: g.aname(), X: g.amount()}
+		}},
 		{12, func() Event {
 			d, v, a, b := g.position()
 			return Event{Ev: "Undelegate", D: d, V: v, A: a, X: g.partOf(b)}
@@ -615,7 +617,7 @@ func (g *Gen) next() Event {
 	}
 	if realSlashW > 0 {
 		opts = append(opts, weighted{realSlashW, func() Event { return Event{Ev: "RealSlash", V: g.vname(), F: g.fraction(), Jail: g.r.Intn(2) == 0} }})
-		opts = append(opts, weighted{realSlashW / 2 + 1, func() Event { return Event{Ev: "Unjail", V: g.vname()} }})
+		opts = append(opts, weighted{realSlashW/2 + 1, func() Event { return Event{Ev: "Unjail", V: g.vname()} }})
 	}
 	if !g.early {
 		accrueW = 0 // rewards are allocated by x/distribution's begin-blocker, before any transaction
